@@ -465,6 +465,59 @@ def run(ctx, rep):
         rep.anchor("C04.bind", "ContextInner::bind")
     else:
         f = bind[0]
+        # decision table of bind over (kind of the existing bound, kind of the new bound), by abstract evaluation: a sum bound
+        # against a product bound (either way round) is a type error on every path and never decomposed; matching
+        # constructors are decomposed; a free bound on either side never fails
+        import absint
+        kinds = ("Free", "Complete", "Sum", "Product")
+        pn = f.param_names()
+        new_idx = pn.index("new") + 1 if "new" in pn else 3
+
+        def bind_paths(k1, k2):
+            first = [True]
+
+            def call_value(t, env, run_):
+                nm = t["f"].get("name")
+                if nm == "shallow_clone" and first[0]:
+                    first[0] = False
+                    return ("enum", "Bound", k1, None)
+                if nm in ("deref", "as_ref", "borrow") and t["args"]:
+                    return run_.operand(env, t["args"][0])
+                return None
+
+            def effect(t, env, run_):
+                nm = t["f"].get("name")
+                pth = t["f"].get("path") or ""
+                if "{closure" in pth or nm in ("call", "call_once", "call_mut"):
+                    return ("err",)
+                if nm in ("unify", "bind"):
+                    return ("rec",)
+                return None
+            out = set()
+            for eff, normal in absint.evaluate(f, {new_idx: ("enum", "Bound", k2, None)}, call_value, effect):
+                out.add((tuple(x[0] for x in eff if x[0] in ("err", "rec")), normal, any(x[0] in ("?", "?branch") and x[0] == "?" for x in eff)))
+            return out
+        for k1 in kinds:
+            for k2 in kinds:
+                ps = bind_paths(k1, k2)
+                shapes = {p_[0] for p_ in ps if p_[1]}
+                key = "bind(%s, %s)" % (k1, k2)
+                if {k1, k2} == {"Sum", "Product"}:
+                    if shapes == {("err",)}:
+                        rep.ok("C04.bind", key, "type error on every path")
+                    else:
+                        rep.violation("C04.bind", key, "binding a %s bound to a %s bound is not an error on every path (effects %s): an ill-typed program "
+                                      "would be accepted, with a type that depends on unification order" % (k1.lower(), k2.lower(), sorted(shapes)), f.where())
+                elif "Free" in (k1, k2):
+                    if any("err" in sh for sh in shapes):
+                        rep.violation("C04.bind", key, "binding involving a free bound can fail (effects %s)" % sorted(shapes), f.where())
+                    else:
+                        rep.ok("C04.bind", key, "never an error")
+                elif k1 == k2 and k1 in ("Sum", "Product"):
+                    if ("rec", "rec") in {sh[:2] for sh in shapes} and not any(sh == () for sh in shapes):
+                        rep.ok("C04.bind", key, "decomposed component-wise")
+                    else:
+                        rep.violation("C04.bind", key, "matching %s bounds are not decomposed into two component-wise unifications (effects %s)" % (k1.lower(), sorted(shapes)), f.where())
         Tb = Terms(f)
         errs = flow.error_blocks(f)
         for nm in ("bind", "unify"):
